@@ -990,6 +990,14 @@ func c17Laws(r *Run, c *c17Case, obs []c17StepObs) {
 					if absorbedShape(wholeJSON(kPrev), wholeJSON(k2)) {
 						cls = "comment-line-absorbed-into-block-scalar"
 					}
+					// the patch text just added has itself grown by re-emitted comment lines, so the
+					// matching `remove patch` no longer finds it
+					if o.Kind == "add patch" && len(kNew.Patches) > 0 {
+						last := kNew.Patches[len(kNew.Patches)-1].Patch
+						if last != o.Patch && absorbedShape(jsonTok(o.Patch), jsonTok(last)) {
+							cls = "comment-line-absorbed-into-block-scalar"
+						}
+					}
 					viol("add_remove_inverse", cls, fmt.Sprintf("step %d %v then %v: before %s after %s", i, o.cli(), inv.cli(), wholeJSON(kPrev), wholeJSON(k2)))
 				}
 			}
@@ -1858,7 +1866,7 @@ func runC17(r *Run, rng *Rng, tier string) error {
 	}
 	nModel, nLaw, maxOps := 250, 150, 6
 	if tier == "thorough" {
-		nModel, nLaw, maxOps = 4000, 6000, 12
+		nModel, nLaw, maxOps = 1500, 2500, 12
 	}
 	r.shard = 25
 	r.Meta.Rule = "initial files: random typed kustomizations (all fields of the model incl. deprecated bases/imageTags/env/patchesStrategicMerge/patchesJson6902/commonLabels, " +
